@@ -7,7 +7,7 @@ From Coq Require Import List NArith Permutation.
 From Coq Require Import ZArith.
 From XotV Require Import Model.Base Model.Zipper Model.Access Model.Store Model.Manip Spec.DocOrder Spec.Shape
                          Proofs.ZipperProofs Proofs.AccessProofs Proofs.StoreProofs Proofs.InvProofs Proofs.InvSteps
-                         Proofs.InvOps Proofs.InvHist Proofs.InvApi Spec.NoAdj Proofs.NoAdjOps Proofs.NoAdjApi Proofs.BuilderSound Proofs.ParseCompose.
+                         Proofs.InvOps Proofs.InvHist Proofs.InvApi Spec.NoAdj Proofs.NoAdjOps Proofs.UnwrapEffect Proofs.NoAdjApi Proofs.BuilderSound Proofs.ParseCompose.
 From XotV Require Import Model.Builder.
 From XotV Require Import Model.Unpretty Model.Interning Model.NsTools Model.Hist.
 Import ListNotations.
@@ -168,6 +168,14 @@ Example C04_shape_rejects :
   /\ keys (FCons 0 (VElement 5) (FCons 1 (VNamespace 3 1) FNil (FCons 2 (VAttribute 3 [2]) FNil FNil)) FNil) = true.
 Proof. vm_compute. repeat split. Qed.
 
+(* element_wrap and element_unwrap between text nodes: the wrapper separates, the unwrapped text merges on both sides *)
+Example C04_noadj_wrap_unwrap_example :
+  let ops := [ONewDoc; ONewEl 5; OAppend 0 1; ONewText [104]; OAppend 1 2; ONewEl 6; OAppend 1 3; ONewText [105]; OAppend 1 4;
+              ONewText [106]; OAppend 3 5; OWrap 3 7; OUnwrap 3; OUnwrap 6] in
+  forallb plain_op2 ops = true
+  /\ store (mfinal init_state ops) = FCons 0 VDocument (FCons 1 (VElement 5) (FCons 2 (VText [104; 106; 105]) FNil FNil) FNil) FNil.
+Proof. vm_compute. repeat split. Qed.
+
 (* ---------- "parsing further documents": a parse into a good store gives a good store ---------- *)
 
 (* [parse_into st p]: the tree [p] the builder handed back becomes a new root of the store and its slots are pushed onto the
@@ -192,30 +200,36 @@ Print Assumptions C04_parse_fragment_keeps_store_good.
 
 (* [noadj st]: in no child list of any node of the store do two text nodes follow one another (Spec/NoAdj.v; the parentless
    nodes at the top of the store are no siblings).
-   PARTIAL: proved for every call of the node-level API except replace, element_wrap and element_unwrap ([plain_op]: these
-   three pass through a state in which the two old neighbours of the node touch before the call repairs it, and the proof of
-   the repair is not done; they are covered by the structural oracle of the correspondence run).  A call that switches
-   consolidation off is excluded by the property itself. *)
+   PARTIAL: proved for every call of the node-level API except replace ([plain_op2]).  replace, element_wrap and element_unwrap pass
+   through a state in which the old neighbours of the node touch before the call repairs it, so the clause is no invariant
+   of their steps: for element_wrap and element_unwrap every intermediate store is computed exactly from the cursor of the node
+   (Proofs/WrapEffect.v, Proofs/UnwrapEffect.v); for replace that is not done (the replacing node may come from anywhere), it is
+   covered by the structural oracle of the correspondence run.  A call that switches consolidation off is excluded by the
+   property itself. *)
 Theorem C04_no_adjacent_text_step_partial :
-  forall st o, Good st -> cons st = true -> noadj st -> plain_op o = true ->
+  forall st o, Good st -> cons st = true -> noadj st -> plain_op2 o = true ->
     noadj (fst (mstep st o)) /\ cons (fst (mstep st o)) = true.
-Proof. intros st o G Hc Hna Hp. split; [apply noadj_mstep; assumption|apply cons_mstep; assumption]. Qed.
+Proof. intros st o G Hc Hna Hp. split; [apply noadj_mstep2; assumption|apply cons_mstep2; assumption]. Qed.
 Print Assumptions C04_no_adjacent_text_step_partial.
 
 (* hence along every history of such calls from the empty store (consolidation is on in a new Xot) *)
 Theorem C04_no_adjacent_text_history_partial :
-  forall ops, forallb plain_op ops = true -> noadj (mfinal init_state ops) /\ cons (mfinal init_state ops) = true.
-Proof. intros ops Hp. exact (noadj_history ops init_state Good_init eq_refl eq_refl Hp). Qed.
+  forall ops, forallb plain_op2 ops = true -> noadj (mfinal init_state ops) /\ cons (mfinal init_state ops) = true.
+Proof. intros ops Hp. exact (noadj_history2 ops init_state Good_init eq_refl eq_refl Hp). Qed.
 Print Assumptions C04_no_adjacent_text_history_partial.
 
 (* the same over the calls built on the node-level API: remove_insignificant_whitespace, create_missing_prefixes,
-   deduplicate_namespaces, clone_with_prefixes ([plain_top] excludes only replace / element_wrap / element_unwrap and
-   switching consolidation off) *)
+   deduplicate_namespaces, clone_with_prefixes ([plain_top] excludes only replace and switching consolidation off) *)
 Theorem C04_no_adjacent_text_api_history_partial :
   forall nm ops t st, Good st -> cons st = true -> noadj st -> forallb plain_top ops = true ->
     noadj (snd (tfinal nm (t, st) ops)) /\ cons (snd (tfinal nm (t, st) ops)) = true.
 Proof. exact noadj_tfinal. Qed.
 Print Assumptions C04_no_adjacent_text_api_history_partial.
+
+(* what [plain_op2] and [plain_top] leave out, spelled out: only replace and the switch-off *)
+Example C04_plain_ops_are_all_but_replace :
+  forall o, plain_op2 o = false -> (exists a b, o = OReplace a b) \/ o = OCons false.
+Proof. intros o H. destruct o; try discriminate H; [left; eauto|destruct b; [discriminate|right; reflexivity]]. Qed.
 
 (* non-vacuity: a history in which text is appended next to text, moved between text nodes and a separating element is
    removed ends without adjacent text (the merges happen); the predicate does reject adjacent text; and with consolidation
@@ -223,7 +237,7 @@ Print Assumptions C04_no_adjacent_text_api_history_partial.
 Example C04_noadj_example :
   let ops := [ONewDoc; ONewEl 5; OAppend 0 1; ONewText [104]; OAppend 1 2; ONewEl 6; OAppend 1 3; ONewText [105]; OAppend 1 4;
               ONewText [106]; OInsertAfter 2 5; ORemove 3] in
-  forallb plain_op ops = true
+  forallb plain_op2 ops = true
   /\ store (mfinal init_state ops) = FCons 0 VDocument (FCons 1 (VElement 5) (FCons 2 (VText [104; 106; 105]) FNil FNil) FNil) FNil
   /\ na (FCons 0 (VElement 5) (FCons 1 (VText [104]) FNil (FCons 2 (VText [105]) FNil FNil)) FNil) = false
   /\ na (store (mfinal init_state (OCons false :: ops))) = false.
